@@ -162,6 +162,9 @@ func runShard(bin string, spec *propSpec, ph phase, tier string, seed int64, sha
 	cmd.Stderr = ef
 	cmd.Env = append(os.Environ(), extraEnv...)
 	cmd.Env = append(cmd.Env, ph.Env...)
+	if os.Getenv("GOMEMLIMIT") == "" {
+		cmd.Env = append(cmd.Env, "GOMEMLIMIT=3GiB") // collect garbage well before the address-space cap
+	}
 	if ph.Race {
 		cmd.Env = append(cmd.Env, fmt.Sprintf("GORACE=halt_on_error=0 log_path=%s/race-%s-%d", workDir, ph.Name, shard))
 	}
